@@ -323,11 +323,21 @@ func (c *e2eCtx) seqStep(base *scenario, st *seqState, op string, r *rand.Rand, 
 			c.violate("C11", fmt.Sprintf("after %v the tree has no tracking point but artefacts remain (generated file: %v, service starts: %d, marker files %v, import files %v)",
 				st.trace, gerr == nil, len(in.Serve), keysOf(in.Markers), keysOfB(in.Imports)), rp(nil))
 		}
+		want := map[string]string{}
+		for k, v := range base.newTree {
+			want[k] = v
+		}
+		for k, v := range st.userText {
+			want[k] = v
+		}
+		if lf, ld := proj.Leftovers(st.dir, want, cfg.PkgPath, "goat.yaml"); len(lf)+len(ld) > 0 {
+			c.violate("C11", fmt.Sprintf("after %v the tree has no tracking point but holds files %v and directories %v the project never had", st.trace, lf, ld), rp(nil))
+		}
 	} else {
 		s2 := *base
 		s2.cfg = cfg
 		s2.dir = st.dir
-		c.judgeC05(&s2, in, func(extra map[string]any) map[string]any { return rp(extra) })
+		c.judgeC05As("C05,C11", &s2, in, func(extra map[string]any) map[string]any { return rp(extra) })
 	}
 	var paths []string
 	for p := range st.userText {
